@@ -291,7 +291,7 @@ impl Prop for C14 {
     }
     fn units(&self, tier: Tier) -> Vec<Unit> {
         let q = tier == Tier::Quick;
-        vec![Unit::new("pairs", if q { 12_000 } else { 300_000 }), Unit::new("cross_process", if q { 8 } else { 64 }).fixed()]
+        vec![Unit::new("pairs", if q { 60_000 } else { 1_000_000 }), Unit::new("cross_process", if q { 8 } else { 64 }).fixed()]
     }
     fn run_unit(&self, unit: &Unit, cases: u32, seed: u64, stats: &mut Stats) -> Option<Failure> {
         if unit.name == "cross_process" {
